@@ -406,6 +406,15 @@ Definition valid_suffix (sf : suffix) : bool :=
   | _ => true
   end.
 
+Definition is_sep (x : N) : bool := N.eqb x cT || N.eqb x cSp.
+Definition not_minus (sf : suffix) : bool := match sf with SMinus _ _ _ => false | _ => true end.
+(* a valid calendar date-time with whole seconds *)
+Definition valid_dt (t : dt) : bool :=
+  let '(y, m, d, h, mi, s, us) := t in valid_date y m d && valid_time h mi s && (us =? 0).
+(* int() of the float m * 2^e (toward zero) and its floor *)
+Definition trunc_of (m e : Z) : Z := if 0 <=? e then m * 2 ^ e else Z.quot m (2 ^ (- e)).
+Definition floor_of (m e : Z) : Z := if 0 <=? e then m * 2 ^ e else m / 2 ^ (- e).
+
 (* the positional shape test of parse_core, as a predicate on the stripped value *)
 Definition shape_ok (v : list N) : bool :=
   let at_ (i : nat) (c : N) := N.eqb (nth i v 0%N) c in
